@@ -18,16 +18,17 @@ type memoryStorageRecord struct {
 }
 
 func (m *MemoryStorage) Save(name Name, snapshot Snapshot, events []Event) error {
+	// 存储事件的副本：调用方（State）会继续复用并追加其事件切片，若直接持有该切片，已存储的事件将被后续的变更悄然改写
 	memoryStorageRecords.Store(name, &memoryStorageRecord{
 		snapshot: snapshot,
-		events:   events,
+		events:   append([]Event(nil), events...),
 	})
 	return nil
 }
 
 func (m *MemoryStorage) Load(name Name) (snapshot Snapshot, events []Event, err error) {
 	if record, ok := memoryStorageRecords.Load(name); ok {
-		return record.snapshot, record.events, nil
+		return record.snapshot, append([]Event(nil), record.events...), nil
 	}
 	return nil, nil, ErrorPersistenceNotHasRecord
 }
